@@ -447,7 +447,7 @@ _C01_NET = ('COMPOSITION (Props/C01net.lean; Model/NetSys.lean = the Sender mode
     'identity of a moved chunk, fragment identities are pairwise distinct: one fragment, one TSN; C01_ssn_assignment - the k-th accepted write on a stream gets SSN k mod 2^16 / MID k mod 2^32, '
     'rejected writes (incl. the rolled-back not-established one) consume none. Tests by evaluation: two streams, three messages across the 2^32 TSN wrap, interleaved selection, loss + T3 '
     'retransmission, duplicates, out-of-order delivery. STILL EXPLORATION at system level: liveness (C02); the byte copy in packetize (toWire ASSUMES the chunk carries that slice of the written '
-    'buffer; observed by the e2e content hashes only); unordered / partially reliable / reset traffic (FORWARD-TSN and stream reset are not operations of NetSys; that reliable streams never '
+    'buffer; observed by the e2e content hashes and, per accepted write, by the byte comparison of the stream-API harness (`sa bytes`: the chunks a write queues carry, in order, exactly the bytes of the buffer)); unordered / partially reliable / reset traffic (FORWARD-TSN and stream reset are not operations of NetSys; that reliable streams never '
     'cause a FORWARD-TSN is C07_reliable_never_abandoned + C07_skip_only_abandoned on the sender model, not re-proved on NetSys); the composition of the selection oracle with the PendQ model '
     '(SelContig is a hypothesis here and a theorem there); handshake, shutdown and teardown around the transfer.')
 if _C01_TAIL in CLAIMS['C01']['text']:
